@@ -212,6 +212,8 @@ impl Runner {
             Ev::SweepSlot { slot, mode, stride } => w.sweep_slot(*slot, mode, *stride),
             Ev::SweepUsk { user } => w.sweep_usk(*user),
             Ev::SweepHostile { target, parser, stride } => sweep_hostile(w, target, parser, *stride),
+            Ev::ScaleProbe { n } => scale_probe(w, *n),
+            Ev::EncryptOtherThread { enc, pol, n } => w.ev_encrypt_other_thread(*enc, pol, *n),
         }
         if w.outcomes.len() == n_out {
             w.outcomes.push("-".into());
@@ -270,6 +272,25 @@ impl Runner {
                         at_event: idx,
                         detail: o.detail.clone(),
                     });
+                }
+            }
+        }
+        if let Some(expl) = self.world.reduce_to.take() {
+            if self.violation.as_ref().map(|v| v.at_event == idx).unwrap_or(false) && matches!(ev, Ev::SweepSlot { .. } | Ev::SweepHostile { .. }) {
+                // replace the sweep by the single mutant that failed
+                self.trace.pop();
+                self.kinds_seq.pop();
+                for e in &expl {
+                    self.trace.push(e.clone());
+                    self.kinds_seq.push(e.kind());
+                }
+                if let Some(v) = &mut self.violation {
+                    v.at_event = self.trace.len() - 1;
+                }
+                if let Some(f) = &mut self.record_to {
+                    use std::io::Write;
+                    let _ = writeln!(f, "{}", serde_json::json!({"replace_last": expl}));
+                    let _ = f.flush();
                 }
             }
         }
@@ -364,6 +385,7 @@ pub fn run_seed(prop: &str, seed: u64, thorough: bool, record: Option<&str>) -> 
     let n_enc = sw.n_encryptors;
     let n_events = sw.n_events;
     let (big_ids, long_names) = (sw.big_ids, sw.long_names);
+    let huge = sw.huge;
     let mut gen = Gen::new(prop, sw);
     gen.thorough = thorough;
     let mut runner = match Runner::new(prop, seed, n_users, n_enc) {
@@ -392,8 +414,11 @@ pub fn run_seed(prop: &str, seed: u64, thorough: bool, record: Option<&str>) -> 
     if prop == "C13" && rng.pct(4) {
         runner.apply(&Ev::Golden);
     }
+    if huge {
+        runner.world.stats.probe("swarm-thousands-of-rights");
+    }
     for u in 0..n_users {
-        if rng.pct(85) {
+        if !huge && rng.pct(85) {
             let ev = gen.try_keygen(&mut rng, &runner.world, u);
             runner.apply(&ev);
         }
@@ -514,6 +539,7 @@ fn mut_kind(m: &HostileMut) -> String {
         }
         HostileMut::Extend { .. } => "extension".into(),
         HostileMut::Empty { which } => format!("emptied-list-{which}"),
+        HostileMut::FieldPadded { .. } => "padded-varint-field".into(),
     }
 }
 
@@ -574,6 +600,19 @@ pub fn hostile_bytes(w: &World, target: &HostileTarget, mutation: &HostileMut, p
         HostileMut::Empty { which } => {
             b = faults::emptied(src_kind, &b, *which)?;
         }
+        HostileMut::FieldPadded { k, delta, pad } => {
+            let spans = wire::field_spans(src_kind, &b);
+            if spans.is_empty() {
+                return None;
+            }
+            let (s, e) = spans[*k % spans.len()];
+            let mut rd = wire::Rd::new(&b[s..e]);
+            let orig = rd.leb().ok()?;
+            let mut nb = b[..s].to_vec();
+            nb.extend(wire::leb_encode_padded(orig.wrapping_add(*delta), (*pad).max(1)));
+            nb.extend_from_slice(&b[e..]);
+            b = nb;
+        }
     }
     Some(b)
 }
@@ -591,6 +630,7 @@ pub fn ev_hostile(w: &mut World, target: &HostileTarget, mutation: &HostileMut, 
         HostileMut::Field { .. } => "hostile-count-field",
         HostileMut::Extend { .. } => "hostile-extension",
         HostileMut::Empty { .. } => "hostile-emptied-list",
+        HostileMut::FieldPadded { .. } => "hostile-padded-varint",
     });
     let pk = parser_kind(parser);
     let mk = mut_kind(mutation);
@@ -708,6 +748,14 @@ pub fn ev_hostile(w: &mut World, target: &HostileTarget, mutation: &HostileMut, 
 
 /// Enumerated hostile rewrites of one object (C14).
 pub fn sweep_hostile(w: &mut World, target: &HostileTarget, parser: &Parser, stride: usize) {
+    // one hostile call of the sweep; remembers the first failing mutant as an explicit event
+    fn ev_hostile(w: &mut World, target: &HostileTarget, m: &HostileMut, parser: &Parser) {
+        let before = w.failed.len();
+        super::run::ev_hostile(w, target, m, parser);
+        if w.failed.len() > before && w.reduce_to.is_none() {
+            w.reduce_to = Some(vec![Ev::Hostile { target: target.clone(), mutation: m.clone(), parser: parser.clone() }]);
+        }
+    }
     let Some(base) = hostile_bytes(w, target, &HostileMut::None, parser) else { return };
     let stride = stride.max(1);
     let n_before = w.failed.len();
@@ -759,6 +807,16 @@ pub fn sweep_hostile(w: &mut World, target: &HostileTarget, parser: &Parser, str
                 }
             }
         }
+        'p: for k in 0..fields {
+            for (delta, pad) in [(0u64, 1u8), (0, 2), (1, 1), (1, 2), (2, 2), (3, 3)] {
+                ev_hostile(w, target, &HostileMut::FieldPadded { k, delta, pad }, parser);
+                w.outcomes.pop();
+                n += 1;
+                if w.failed.len() > n_before {
+                    break 'p;
+                }
+            }
+        }
         for which in 0..7u8 {
             ev_hostile(w, target, &HostileMut::Empty { which }, parser);
             w.outcomes.pop();
@@ -801,5 +859,59 @@ pub fn remap_slots(ev: &mut Ev, f: &dyn Fn(usize) -> Option<usize>) -> bool {
             }
         }
         _ => true,
+    }
+}
+
+fn thread_cpu_ns() -> u64 {
+    let mut ts = libc::timespec { tv_sec: 0, tv_nsec: 0 };
+    unsafe {
+        libc::clock_gettime(libc::CLOCK_THREAD_CPUTIME_ID, &mut ts);
+    }
+    ts.tv_sec as u64 * 1_000_000_000 + ts.tv_nsec as u64
+}
+
+/// Doubling experiment (C14, "time proportional to the input"): a valid access structure with
+/// n and with 4n attributes is serialized (alone and inside an MPK-like prefix is not needed:
+/// the structure reader is shared) and deserialized; the CPU time of this thread - insensitive
+/// to machine load - must not grow much faster than the input. A quadratic reader gives a
+/// ratio near 16, a linear one near 4; the bound is 11 plus a constant allowance.
+pub fn scale_probe(w: &mut World, n: usize) {
+    use cosmian_cover_crypt::{EncryptionHint, QualifiedAttribute};
+    let build = |count: usize| -> Option<Vec<u8>> {
+        let mut s = AccessStructure::new();
+        s.add_anarchy("D".to_string()).ok()?;
+        for i in 0..count {
+            s.add_attribute(QualifiedAttribute::new("D", &format!("a{i}")), EncryptionHint::Classic, None).ok()?;
+        }
+        s.serialize().ok().map(|b| b.to_vec())
+    };
+    let (Some(small), Some(big)) = (build(n), build(4 * n)) else { return };
+    let time = |bytes: &[u8]| -> Option<u64> {
+        let mut best = u64::MAX;
+        for _ in 0..3 {
+            let t0 = thread_cpu_ns();
+            let r = AccessStructure::deserialize(bytes);
+            let dt = thread_cpu_ns() - t0;
+            r.ok()?;
+            best = best.min(dt);
+        }
+        Some(best)
+    };
+    let r = guard(|| (time(&small), time(&big)));
+    w.stats.check("scale-probe");
+    w.stats.probe("parser-doubling-experiment");
+    match r {
+        Err(p) => w.fail(Class::Hostile, "panic/structure/scale-probe", p),
+        Ok((Some(t1), Some(t4))) => {
+            w.outcomes.push("scale-probe:ok".into());
+            if t4 > 11 * t1 + 30_000_000 {
+                w.fail(
+                    Class::Hostile,
+                    "super-linear-time/structure",
+                    format!("{} attributes: {} us, {} attributes: {} us (ratio {:.1})", n, t1 / 1000, 4 * n, t4 / 1000, t4 as f64 / t1.max(1) as f64),
+                );
+            }
+        }
+        _ => w.outcomes.push("scale-probe:unparseable".into()),
     }
 }
